@@ -16,6 +16,17 @@ Lemma cholesky_route (S : settings F) bs n gs R logdet reduce probes :
   ROk (chol_iql A bs [seq (false, n, shortcut_root A n g) | g <- gs] R logdet reduce).
 Proof. by rewrite /generic_iql /chol_route => ->. Qed.
 
+(* InvQuad's own path selector: Cholesky solve iff solves off, or log_prob off, or n <= max_cholesky_size; the values are
+   then independent of every CG setting *)
+Lemma invquad_route (S : settings F) n gs Rs :
+  [|| ~~ s_solves S, ~~ s_log_prob S | n <= s_max_cholesky_size S] ->
+  invquad_forward A S n gs Rs = ROk [seq [seq dense_iq_col A n (g_M gr.1) r | r <- gr.2] | gr <- zip gs Rs].
+Proof. by rewrite /invquad_forward /invquad_chol_solve => ->. Qed.
+
+Lemma invquad_selector_vs_solve (S : settings F) n :
+  invquad_chol_solve S n = solve_chol_solve S n || ~~ s_log_prob S.
+Proof. by rewrite /invquad_chol_solve /solve_chol_solve; case: (s_solves S); case: (s_log_prob S); rewrite ?orbT ?orbF. Qed.
+
 (* documented shapes *)
 Definition iq_shape_spec (bs : seq nat) (R : rhs_in F) (reduce : bool) : seq nat :=
   if reduce then bs else bs ++ [:: rhs_ncols R].
